@@ -353,8 +353,8 @@ def run(ctx):
         wrapped = [fp for fp in sel_defs if fp[0][0] == "val" and fp[2][0] == "val" and acc.get(getattr(peel_conv(fp[0][1]), "a", [None])[0]) == "preceding"
                    and acc.get(getattr(peel_conv(fp[2][1]), "a", [None])[0]) == "trailing"]
         if not wrapped:
-            from engine.analyses import inplace_wraps
-            for (l_, pre_, post_, ibb_, abb_) in inplace_wraps(lb9):
+            from engine.analyses import inplace_wraps, bracketed_appends
+            for (l_, pre_, post_, ibb_, abb_) in inplace_wraps(lb9) + bracketed_appends(lb9):
                 if acc.get(getattr(peel_conv(pre_), "a", [None])[0]) == "preceding" and acc.get(getattr(peel_conv(post_), "a", [None])[0]) == "trailing":
                     wrapped.append([("val", pre_), ("val", E("local", l_)), ("val", post_)])
         if not wrapped:
